@@ -84,6 +84,52 @@ FAILING = [
     "{P}\u200b + 1",
     "{P}\ufeff1",
     "{P}\u202e1",
+    # errors whose location is the very end of the input (after a final line break, after blank lines, CR LF)
+    "{P}|||\n  foo\n",
+    "{P}|||\n  foo\n\n\n",
+    "{P}{a: |||\r\n  foo\r\n\r\n\r\n",
+    "{P}|||-\n\tfoo\n\n",
+    "{P}|||\n  foo\n ",
+    "{P}|||\n  foo\n  ",
+    "{P}|||\n  foo",
+    "{P}|||\n",
+    "{P}|||\n\n",
+    "{P}|||\r\n",
+    "{P}|||",
+    "{P}|||-",
+    "{P}||| x",
+    "{P}|||\nfoo\n|||",
+    "{P}|||\n  foo\n bar\n|||",
+    "{P}|||\n  foo\nbar",
+    "{P}'abc\n",
+    "{P}'abc\\",
+    "{P}'abc\\u12",
+    "{P}'\\ud800",
+    "{P}@'abc\n\n",
+    "{P}@\"",
+    "{P}/* c\n",
+    "{P}/*",
+    "{P}/",
+    "{P}1 +\n",
+    "{P}1 +\n\n// c\n",
+    "{P}1 + // c",
+    "{P}local x =\n",
+    "{P}{a:\r\n",
+    "{P}[1,\n\n",
+    "{P}f(\n",
+    "{P}1.\n",
+    "{P}1e\n",
+    "{P}1e+",
+    "{P}1_",
+    "{P}import\n",
+    "{P}{\n",
+    "{P}local\n",
+    "{P}function(\n",
+    "{P}if true then\n",
+    "{P}1 2\n",
+    "{P}{XFF}",
+    "{P}{XFF}\n",
+    "{P}'{XFF}",
 ]
 PADS = ["", " ", "\n", "\n\n\n", "\t", "  \t ", "\r\n", "// c\n", "/* \u00e9 */ ", "/* \U0001f600\U0001f600 */", "# h\r\n# i\r\n",
         "local long = '" + "x" * 300 + "';\n", "\n" * 40, "/*" + " " * 100000 + "*/", "/* {XFF}{XFE}{X80} */ ", "/* \t\t */\t"]
@@ -125,7 +171,15 @@ def render_case(agg, srv, src, path, family, stack=None):
     o = Outcome(recs)
     if o.cls in ("value", "panic", "herr"):
         if o.cls == "panic":
-            agg.inconc("c01_panic")
+            loc = o.rec.s("loc") or ""
+            msg = o.rec.s("msg") or ""
+            if "span.rs" in loc or "lexer" in loc or "parser" in loc or "report" in loc:
+                # a failing source whose diagnostic cannot even be built (span outside the source it names)
+                agg.violation({"kind": "panic", "where": "building_diagnostic", "msg": re.sub(r"[0-9]+", "N", msg)[:120],
+                               "loc": re.sub(r":[0-9]+", "", loc)},
+                              {"family": family, "source": latin(src[:300]), "panic": msg, "loc": loc}, {"script": lines})
+            else:
+                agg.inconc("c01_panic")
         return
     rec = o.rec
     desc = {"family": family, "source": latin(src[:300]), "error": (rec.s("dbg") or "")[:200]}
